@@ -58,6 +58,10 @@ def get(name):
     if m:
         f = {"square": T.square_polys, "brick": T.brick_polys, "hex": T.hex_polys}[m.group(1)]
         return T.polygons_at(f(int(m.group(2)), int(m.group(3))))
+    m = re.fullmatch(r"raw(\d+)x(\d+)j(\d+)p(\d+)", name)
+    if m:
+        # unfiltered bounded Voronoi tissue of one specific site pattern (used where a particular geometry is wanted)
+        return T.voronoi_at(T.hex_sites(int(m.group(1)), int(m.group(2)), int(m.group(3)) / 100.0, int(m.group(4))))
     if name == "lens":
         return T.lens_at(0.8)
     raise KeyError(name)
